@@ -1,11 +1,13 @@
 //! Per-property generators (workers), metadata and the case dispatcher.
 use crate::by_ty;
 use crate::checks::*;
+use crate::checks2::*;
 use crate::runner::{Ctx, Stats, Tier, WorkerSpec};
 use crate::types::*;
 
 pub mod c01;
 pub mod c04;
+pub mod calls;
 
 pub struct Meta {
     pub rule: String,
@@ -18,6 +20,12 @@ pub fn meta(prop: &str, tier: Tier) -> Meta {
     match prop {
         "C01" => c01::meta(tier),
         "C04" => c04::meta(tier),
+        "C03" => calls::c03_meta(tier),
+        "C06" => calls::c06_meta(tier),
+        "C07" => calls::c07_meta(tier),
+        "C08" => calls::c08_meta(tier),
+        "C09" => calls::c09_meta(tier),
+        "C15" => calls::c15_meta(tier),
         _ => Meta { rule: String::new(), exhaustive: false, exhaustive_note: String::new(), assumptions: vec![] },
     }
 }
@@ -26,6 +34,12 @@ pub fn worker(ctx: &mut Ctx) {
     match ctx.prop.clone().as_str() {
         "C01" => c01::worker(ctx),
         "C04" => c04::worker(ctx),
+        "C03" => calls::c03_worker(ctx),
+        "C06" => calls::c06_worker(ctx),
+        "C07" => calls::c07_worker(ctx),
+        "C08" => calls::c08_worker(ctx),
+        "C09" => calls::c09_worker(ctx),
+        "C15" => calls::c15_worker(ctx),
         other => ctx.stats.infra_errors.push(format!("no worker for property {}", other)),
     }
 }
@@ -33,8 +47,15 @@ pub fn worker(ctx: &mut Ctx) {
 /// default: 16 shards of the `rel` build
 pub fn worker_specs(prop: &str, _tier: Tier) -> Vec<WorkerSpec> {
     let n = 16;
+    let mk = |v: &str, n: usize| (0..n).map(|i| WorkerSpec { variant: v.into(), mask: 0, shard: i, nshards: n }).collect::<Vec<_>>();
     match prop {
-        _ => (0..n).map(|i| WorkerSpec { variant: "rel".into(), mask: 0, shard: i, nshards: n }).collect(),
+        // optimised build (real out-of-bounds accesses hit guard pages) + debug-assert build (index-level witness)
+        "C03" | "C09" | "C15" | "C12" => {
+            let mut v = mk("rel", n);
+            v.extend(mk("chk", n));
+            v
+        }
+        _ => mk("rel", n),
     }
 }
 
@@ -49,6 +70,12 @@ pub fn run_case(case: &Case) -> Outcome {
         "plan" => by_ty!(case.ty, k_plan(case)),
         "planwindow" => by_ty!(case.ty, k_planwindow(case)),
         "planonly" => by_ty!(case.ty, k_planonly(case)),
+        "roundtrip" => by_ty!(case.ty, k_roundtrip(case)),
+        "chunks" => by_ty!(case.ty, k_chunks(case)),
+        "scratch" => by_ty!(case.ty, k_scratch(case)),
+        "shape" => by_ty!(case.ty, k_shape(case)),
+        "immut" => by_ty!(case.ty, k_immut(case)),
+        "guard" => by_ty!(case.ty, k_guard(case)),
         other => Outcome::skip(format!("unknown case kind {}", other)),
     }
 }
